@@ -14,19 +14,24 @@ vars == <<op, k, kind, persist, log, faulted, nfaults, result, mutated, pc>>
 
 Cleanup  == {"file.Close"}
 Mutating == {"fs.OpenFile", "fs.Create", "file.Write", "file.WriteAt", "file.Truncate", "fs.Remove", "fs.Rename"}
-Kinds(d) == IF d = "file.Write" THEN {"error", "short"} ELSE IF d = "readerat.ReadAt" THEN {"error", "eof"} ELSE {"error"}   \* eof: short count + io.EOF (file truncated underneath)
+Kinds(d) == IF d = "file.Write" THEN {"error", "short"} ELSE IF d = "readerat.ReadAt" THEN {"error", "eof"}       \* eof: short count + io.EOF (file truncated underneath)
+            ELSE IF d = "file.Read" THEN {"error", "partial-error", "partial"} ELSE {"error"}
+(* partial-error: some of the requested bytes arrive together with an error; partial: a short count WITHOUT an error, which *)
+(* is not a failure under the io.Reader contract - the operation has to read on and either succeed with the whole value     *)
+(* or report an error, never succeed with the part (Benign below).                                                           *)
+Benign == {"partial"}
 
-Init == /\ op \in DOMAIN Ops /\ k \in 0..Len(Ops[op]) /\ kind \in {"error", "short", "eof"}
+Init == /\ op \in DOMAIN Ops /\ k \in 0..Len(Ops[op]) /\ kind \in {"error", "short", "eof", "partial-error", "partial"}
         /\ (k = 0 => kind = "error") /\ (k > 0 => kind \in Kinds(Ops[op][k]))
-        /\ persist \in BOOLEAN /\ (k = 0 => persist = FALSE) /\ nfaults = 0
+        /\ persist \in BOOLEAN /\ (k = 0 \/ kind # "error" => persist = FALSE) /\ nfaults = 0
         /\ log = <<>> /\ faulted = FALSE /\ result = "none" /\ mutated = FALSE /\ pc = "run"
 
 (* the next dependency call of the fault-free sequence; the k-th one fails *)
 Call == /\ pc = "run" /\ ~faulted /\ Len(log) < Len(Ops[op])
         /\ LET d == Ops[op][Len(log) + 1] IN
            /\ log' = Append(log, d)
-           /\ faulted' = (Len(log) + 1 = k)
-           /\ nfaults' = (IF Len(log) + 1 = k THEN 1 ELSE 0)
+           /\ faulted' = (Len(log) + 1 = k /\ kind \notin Benign)
+           /\ nfaults' = (IF Len(log) + 1 = k /\ kind \notin Benign THEN 1 ELSE 0)
            /\ mutated' = (mutated \/ (d \in Mutating /\ Len(log) + 1 # k))
         /\ UNCHANGED <<op, k, kind, persist, result, pc>>
 (* after the fault: only cleanup *)
@@ -43,7 +48,7 @@ Spec == Init /\ [][Next]_vars
 (* ---- C15 ---- *)
 NeverSuccessAfterFault == (pc = "done" /\ faulted) => result \in {"error", "nil"}
 FaultFreeSucceeds      == (pc = "done" /\ ~faulted) => result = "ok"
-NothingAfterFault == \A i \in 1..Len(log) : (k > 0 /\ i > k) => log[i] \in Cleanup
+NothingAfterFault == \A i \in 1..Len(log) : (k > 0 /\ kind \notin Benign /\ i > k) => log[i] \in Cleanup
 MultiFaultStillReported == (pc = "done" /\ nfaults > 1) => result \in {"error", "nil"} /\ ~(\E i \in (k + 1)..Len(log) : log[i] \notin Cleanup)
 FailedSignWritesNothing == (k > 0 /\ Len(log) >= k /\ Ops[op][k] = "signer.Sign") => ~mutated
 =============================================================================
